@@ -284,6 +284,8 @@ inductive Sys where
   | lstat (p : Path) (found : Bool)                -- inside `os.Rename` / failure path
   | rename (src dst : Path) (node : Node) (ok : Bool)
   | unlink (p : Path)
+  | unlinkFail (p : Path)                          -- `unlinkat` on a directory: EISDIR
+  | rmdir (p : Path) (ok : Bool)                   -- second half of `os.Remove`
   | setImmutable (p : Path) (ino : Nat) (on : Bool)   -- `FS_IOC_SETFLAGS`
   | setFlagsDir (p : Path)                         -- `FS_IOC_SETFLAGS` on a directory (Discard of a directory)
   deriving DecidableEq, Repr
@@ -304,6 +306,7 @@ def step (s : FS) : Sys → FS
   | .rename src dst node true =>
     (s.change (parentOf dst) (baseOf dst, some node)).change (parentOf src) (baseOf src, none)
   | .unlink p => s.change (parentOf p) (baseOf p, none)
+  | .rmdir p true => s.change (parentOf p) (baseOf p, none)
   | .setImmutable _ i on => s.modFile i fun f => { f with immutable := on }
   | _ => s
 
@@ -355,10 +358,78 @@ structure Opts where
   immutable : Bool
   deriving DecidableEq, Repr
 
-/-- `durable.Mkdir(p)`: parent opened first, deferred `fsyncAndClose(parent)` runs last. -/
+/-! ### Source-level programs: calls and `defer`s in source order
+
+`durable.Mkdir` and `durable.WriteFile` are straight-line code whose ordering guarantees come from
+Go's last-in-first-out `defer`. The model keeps them in *source order* (`Stmt`), which is what
+`Tie/C13.lean` compares with the regenerated skeleton of the functions, and derives the execution
+order (`execOrder`) from it. -/
+
+/-- The effects of `durable.Mkdir` / `durable.WriteFile`. -/
+inductive Eff where
+  | openParent          -- `os.OpenFile(filepath.Dir(name), O_RDONLY|O_DIRECTORY)`
+  | syncCloseParent     -- `fsyncAndClose(parent, &err)`
+  | mkdir               -- `os.Mkdir(path, perm)`
+  | openSelf            -- `os.OpenFile(path, O_RDONLY|O_DIRECTORY)`
+  | syncCloseSelf       -- `fsyncAndClose(f, &err)` on the new directory
+  | createTemp          -- `os.CreateTemp(filepath.Dir(name), "."+filepath.Base(name))`
+  | renameOrRemove      -- deferred closure: `os.Rename(tmpname, name)` if no error so far, `os.Remove(tmpname)` on error
+  | chmod               -- `f.Chmod(perm)`
+  | syncCloseTmp        -- `fsyncAndClose(f, &err)` on the temporary file
+  | write               -- `f.Write(data)`
+  deriving DecidableEq, Repr
+
+structure Stmt where
+  deferred : Bool
+  eff : Eff
+  deriving DecidableEq, Repr
+
+/-- Go semantics of a straight-line body: calls in order, then the deferred calls last-in-first-out. -/
+def execOrder (p : List Stmt) : List Eff :=
+  ((p.filter fun s => !s.deferred).map (·.eff)) ++ ((p.filter (·.deferred)).map (·.eff)).reverse
+
+/-- `durable.Mkdir` in source order. -/
+def mkdirProgram : List Stmt :=
+  [⟨false, .openParent⟩, ⟨true, .syncCloseParent⟩, ⟨false, .mkdir⟩, ⟨false, .openSelf⟩, ⟨true, .syncCloseSelf⟩]
+
+/-- `durable.WriteFile` in source order. -/
+def writeFileProgram : List Stmt :=
+  [⟨false, .openParent⟩, ⟨true, .syncCloseParent⟩, ⟨false, .createTemp⟩, ⟨true, .renameOrRemove⟩,
+   ⟨false, .chmod⟩, ⟨true, .syncCloseTmp⟩, ⟨false, .write⟩]
+
+/-- How the deferred rename of `WriteFile` ends, decided by what is at the target. -/
+inductive RenameOutcome where
+  | renamed (existed : Bool)
+  | targetIsDir          -- `os.Rename` refuses a directory target before calling `renameat`
+  | targetImmutable      -- `renameat` fails with EPERM (the flag is effective with CAP_LINUX_IMMUTABLE)
+  deriving DecidableEq, Repr
+
+def RenameOutcome.failed : RenameOutcome → Bool
+  | .renamed _ => false
+  | _ => true
+
+/-- The system calls of one effect. `path` = the directory (Mkdir) or file (WriteFile) being made,
+`tmp`/`i` = temporary file and its inode. -/
+def effSys (path tmp : Path) (i : Nat) (data : Bytes) (perm : Nat) (out : RenameOutcome) : Eff → List Sys
+  | .openParent => [.openDir (parentOf path)]
+  | .syncCloseParent =>
+    if out.failed then [.closeDir (parentOf path)] else [.fsyncDir (parentOf path), .closeDir (parentOf path)]
+  | .mkdir => [.mkdir path]
+  | .openSelf => [.openDir path]
+  | .syncCloseSelf => [.fsyncDir path, .closeDir path]
+  | .createTemp => [.creat tmp i]
+  | .chmod => [.fchmod tmp i perm]
+  | .write => [.write tmp i data]
+  | .syncCloseTmp => [.fsync tmp i, .close tmp]
+  | .renameOrRemove =>
+    match out with
+    | .renamed existed => [.lstat path existed, .rename tmp path (.file i) true]
+    | .targetIsDir => [.lstat path true, .lstat tmp true, .unlink tmp]
+    | .targetImmutable => [.lstat path true, .rename tmp path (.file i) false, .unlink tmp]
+
+/-- `durable.Mkdir(p)`. -/
 def mkdirTrace (p : Path) : List Sys :=
-  [.openDir (parentOf p), .mkdir p, .openDir p, .fsyncDir p, .closeDir p,
-   .fsyncDir (parentOf p), .closeDir (parentOf p)]
+  (execOrder mkdirProgram).flatMap (effSys p [] 0 [] 0 (.renamed false))
 
 /-- `durable.MkdirAll` on the path whose *reversed* components are given: the `os.Stat` calls
 going up, then one `Mkdir` per missing level going down. `false` = error (a component is a file). -/
@@ -379,38 +450,31 @@ def mkdirAllTrace (s : FS) (p : Path) : List Sys × Bool :=
 
 def tmpName (base rnd : Name) : Name := dot ++ base ++ rnd
 
-/-- `durable.WriteFile(path, data, perm)`; `rnd` is the random suffix `os.CreateTemp` chose. Defers
-run last-in-first-out: `fsync(tmp), close(tmp)`; then `rename`; then `fsync(parent), close(parent)`. -/
-def writeFileTrace (s : FS) (path : Path) (data : Bytes) (perm : Nat) (rnd : Name) : List Sys × Result :=
-  let par := parentOf path
-  let tmp := par ++ [tmpName (baseOf path) rnd]
-  let i := s.next
-  let pre : List Sys :=
-    [.openDir par, .creat tmp i, .fchmod tmp i perm, .write tmp i data, .fsync tmp i, .close tmp]
-  let commit : List Sys :=
-    [.rename tmp path (.file i) true, .fsyncDir par, .closeDir par]
+def renameOutcome (s : FS) (path : Path) : RenameOutcome :=
   match s.lookup path with
-  | none => (pre ++ .lstat path false :: commit, .ok)
-  | some .dir =>
-    -- os.Rename refuses a directory target before calling renameat
-    (pre ++ [.lstat path true, .lstat tmp true, .unlink tmp, .closeDir par], .error)
+  | none => .renamed false
+  | some .dir => .targetIsDir
   | some (.file j) =>
-    if ((s.files j).map (·.immutable)) == some true then
-      -- renameat fails with EPERM on an immutable target (the flag is only effective with CAP_LINUX_IMMUTABLE)
-      (pre ++ [.lstat path true, .rename tmp path (.file i) false, .unlink tmp, .closeDir par], .error)
-    else (pre ++ .lstat path true :: commit, .ok)
+    if ((s.files j).map (·.immutable)) == some true then .targetImmutable else .renamed true
+
+/-- `durable.WriteFile(path, data, perm)`; `rnd` is the random suffix `os.CreateTemp` chose. -/
+def writeFileTrace (s : FS) (path : Path) (data : Bytes) (perm : Nat) (rnd : Name) : List Sys × Result :=
+  let tmp := parentOf path ++ [tmpName (baseOf path) rnd]
+  let out := renameOutcome s path
+  ((execOrder writeFileProgram).flatMap (effSys path tmp s.next data perm out),
+    if out.failed then .error else .ok)
 
 /-- The reads of `compareFile` on the open file at `path`, and its verdict. -/
 def compareTrace (P : Program) (s : FS) (path : Path) (data : Bytes) : List Sys × Result :=
-  match s.lookup path with
-  | some (.file j) =>
-    let r := compareFile P (((s.files j).map (·.data)).getD []) data
+  match s.fileAt path with
+  | some f =>
+    let r := compareFile P f.data data
     (r.1.map (fun x => Sys.read path x.1 x.2),
       match r.2 with
       | some true => .ok
       | some false => .mismatch
       | none => .hang)
-  | _ => ([.readDir path], .mismatch)
+  | none => ([.readDir path], .mismatch)
 
 /-- `LocalBackend.Upload(key, data, opts)` with backend directory `dir`, in state `s`. -/
 def uploadTrace (P : Program) (dir : Path) (key data : Bytes) (o : Opts) (rnd : Name) (s : FS) :
@@ -454,7 +518,9 @@ def discardTrace (dir : Path) (key : Bytes) (s : FS) : List Sys × Result :=
     let path := dir ++ comps
     match s.lookup path with
     | none => ([.openRd path false], .error)
-    | some .dir => ([.openRd path true, .setFlagsDir path, .closeRd path, .unlink path], .error)
+    -- `os.Remove` on a directory: `unlinkat` fails with EISDIR, then `rmdir` (succeeds iff it is empty;
+    -- the driver adopts the observed outcome, the model has no notion of emptiness)
+    | some .dir => ([.openRd path true, .setFlagsDir path, .closeRd path, .unlinkFail path, .rmdir path true], .ok)
     | some (.file i) => ([.openRd path true, .setImmutable path i false, .closeRd path, .unlink path], .ok)
 
 /-! ## Which paths a system call names -/
@@ -462,7 +528,7 @@ def discardTrace (dir : Path) (key : Bytes) (s : FS) : List Sys × Result :=
 def Sys.paths : Sys → List Path
   | .stat p _ | .openDir p | .mkdir p | .fsyncDir p | .closeDir p | .openRd p _ | .read p _ _
   | .readDir p | .closeRd p | .creat p _ | .fchmod p _ _ | .write p _ _ | .fsync p _ | .close p
-  | .lstat p _ | .unlink p | .setImmutable p _ _ | .setFlagsDir p => [p]
+  | .lstat p _ | .unlink p | .unlinkFail p | .rmdir p _ | .setImmutable p _ _ | .setFlagsDir p => [p]
   | .rename a b _ _ => [a, b]
 
 /-- `p` is `dir` or lies below it. -/
